@@ -336,4 +336,7 @@ def run(P, R, tier):
     # two clients are told apart by id, serial and slot bit: none of them is truncated when stored
     rules.narrowing_fields(P, R, 'C07.WID.1', ('modules/iauth_core.c', 'modules/iauth_xquery.c', 'modules/iauth_class.c'))
     rules.counter_widths(P, R, 'C07.WID.2', recs=('iauth_xquery_service', 'iauth_request', 'set'))
+    # every complete line that was read is dispatched in this wake-up: none dropped, none left waiting for unrelated traffic
+    from . import c03 as _c03
+    _c03.reader_drains(P, R, 'C07.MPT.5')
     return EXPLANATION, ASSUMPTIONS
